@@ -19,8 +19,16 @@ pub const BEHAVS: [&str; 6] = ["readall", "interleave", "writefirst", "noread", 
 
 /// body of `cvx c16-scenario <behav> <pad> <big>`: one exchange on the real code
 pub fn scenario_main(behav: &str, pad: usize, big: bool) -> i32 {
+    scenario_main_err(behav, pad, big, 0)
+}
+
+pub fn scenario_main_err(behav: &str, pad: usize, big: bool, errpad: usize) -> i32 {
     let r = catch(|| {
-        let mut s = ExternalSatSolver::new(fake_sat().to_string(), vec![format!("behav={}", behav), format!("pad={}", pad)]);
+        let mut opts = vec![format!("behav={}", behav), format!("pad={}", pad)];
+        if errpad > 0 {
+            opts.push(format!("errpad={}", errpad));
+        }
+        let mut s = ExternalSatSolver::new(fake_sat().to_string(), opts);
         s.add_clause(vec![Literal::from(1isize)]);
         s.add_clause(vec![Literal::from(-1isize)]);
         if big {
@@ -254,6 +262,38 @@ pub fn run_part3(rep: &mut Report, tier: Tier) {
             }
         }
     }
+    // the third stream: the same exchanges with a child that first writes up to 3 pipe capacities of
+    // diagnostics to its standard error (not part of the model: the outcome must simply not change)
+    let err_scenarios: Vec<(&str, usize, bool, usize)> = ["readall", "writefirst"]
+        .into_iter()
+        .flat_map(|b| [0usize, cap + 1].into_iter().flat_map(move |s| [false, true].into_iter().flat_map(move |big| [cap, cap + 1, 3 * cap].into_iter().map(move |e| (b, s, big, e)))))
+        .collect();
+    let err_results: Vec<(&str, usize, bool, usize, bool, String)> = err_scenarios
+        .par_iter()
+        .map(|&(b, s, big, e)| {
+            let mut cmd = Command::new(&exe);
+            cmd.args(["c16-scenario", b, &s.to_string(), if big { "1" } else { "0" }, &e.to_string()]);
+            let (done, kind, _) = run_with_watchdog(cmd, Duration::from_secs(10));
+            (b, s, big, e, done, kind)
+        })
+        .collect();
+    let mut n_err_ok = 0u64;
+    for (b, s, big, e, done, kind) in &err_results {
+        let exp = expected_kinds(b);
+        if *done && exp.contains(&kind.as_str()) {
+            n_err_ok += 1;
+        } else {
+            rep.add_violation(Violation {
+                property: "C16".into(),
+                key: format!("part=exchange;child={};stderr=flood;what={}", b, if !*done { "hang" } else { "unexpected_result" }),
+                message: format!("exchange with a child that behaves '{}', writes {} bytes to its standard error first and replies {} bytes (pipe capacity {}), instance {} the stdin pipe: {} (expected {:?})", b, e, s, cap, if *big { "larger than" } else { "smaller than" }, if !*done { "the call did not return within 10 s".to_string() } else { format!("returned {}", kind) }, exp),
+                case: json!({"engine": "exchange", "child": b, "reply_bytes": s, "big_instance": big, "stderr_bytes": e}),
+            });
+        }
+    }
+    rep.traces += err_results.len() as u64;
+    rep.evaluations += err_results.len() as u64;
+    rep.extra.insert("part3:conformance grid, standard error flooded first".into(), json!({"scenarios": err_results.len(), "scenarios_as_expected": n_err_ok, "stderr_bytes": [cap, cap + 1, 3 * cap]}));
     let results: Vec<(usize, &str, usize, bool, bool, String, f64)> = scenarios
         .par_iter()
         .map(|&(i, b, s, big)| {
